@@ -10,6 +10,7 @@ SPEC = {
             {"args": ["-mode", "st"], "corpus": "st"},
             {"args": ["-mode", "fw"], "corpus": "fw"},
             {"args": ["-mode", "pl"], "corpus": "pl"},
+            {"args": ["-mode", "ls"], "corpus": "ls"},
         ],
     },
     "strip_obs": r" alloc \d+",
@@ -25,7 +26,10 @@ SPEC = {
              "(NewFrameStream | NewFrameStreamWithTracker with a scripted double answering closed/active/unknown per foreign "
              "tunnel) and optionally creates the receiving stream only after residual frames are queued; pl: a stream on a "
              "connection obtained from the real NodeConnectionPool (Get, residual frames of the previous tunnel arrive, "
-             "Release, Get); non-trivial = stream cut at least once (dec/rt) or >= 2 "
+             "Release, Get) or from the top-level Pool (address from storage); st also: a reverse phase on the same two stream "
+             "objects (request/response), the connection lost at every byte offset (cut), held read buffers / scribbled write "
+             "buffers; fw also with traffic counters, LocalConnCloser, answer-first ordering; tm: TargetReady payload codec; "
+             "non-trivial = stream cut at least once (dec/rt) or >= 2 "
              "events (st); distinct = distinct (events/stream prefix, sizes, chunking, read pattern)"),
     "trusted_base": [
         "Lean 4.33 kernel; axioms propext, Classical.choice, Quot.sound only (audited per theorem on every run)",
